@@ -34,7 +34,11 @@ func fsgn(a, b float64) int64 {
 }
 
 func pairsCase(t *vlib.T, xi_, yi []int, ws wspec) {
-	x, y := pick(pairVals, xi_), pick(pairVals, yi)
+	pairsData(t, pick(pairVals, xi_), pick(pairVals, yi), ws)
+}
+
+// pairsData checks all bivariate functions on one sample given by value.
+func pairsData(t *vlib.T, x, y []float64, ws wspec) {
 	w := cloneF(ws.w)
 	n := len(x)
 	fn := float64(n)
@@ -325,7 +329,10 @@ func genPairs(g *vlib.G) {
 var kendallVals = []float64{-1, 0, 2, big1e15}
 
 func kendallCase(t *vlib.T, xi_, yi []int, ws wspec) {
-	x, y := pick(kendallVals, xi_), pick(kendallVals, yi)
+	kendallData(t, pick(kendallVals, xi_), pick(kendallVals, yi), ws)
+}
+
+func kendallData(t *vlib.T, x, y []float64, ws wspec) {
 	w := cloneF(ws.w)
 	n := len(x)
 	fn := float64(n)
